@@ -32,6 +32,13 @@ CHECKS = {
             "violations; the annotation wrapper must build a new object and a new set. Flatten/unflatten: writer/reader encoding agreement is decided, the history clause is not.",
             "Trusted: backend freshness table in sa/own.py (XNP_FRESH / XNP_VIEW), the named exclusions (module-namespace plumbing, torch ctx, the update_array primitives). "
             "The registry-history clause of flatten depends on runtime values and is not decided.", "4/C18"),
+    "C05": ("abstract interpretation of the get_annotations rules over operator descriptors against an oracle of preserved annotations; provenance dataflow (ORTHO/COLS) at annotation output sites",
+            "Full for the inference rules: each get_annotations rule is executed by an interpreter for the pure fragment it is written in (set algebra, reduce, comprehensions, "
+            "isinstance/issubclass against parametric patterns, identity tests) on every composite with up to 3-4 parts x all 16 raw annotation subsets per part; a claimed annotation "
+            "that linear algebra does not allow is reported with the witness operator. Refute-only for output sites: Unitary/Stiefel(...) inside cola/ is refuted when the wrapped "
+            "value provably has a caller-controlled column count or holds general eigenvectors, proved when it is a (column selection of a) unitary factor, undecided otherwise.",
+            "Trusted: oracle `allowed` in sa/annot.py (one line per combinator with its reason); backend provenance table in sa/prov.py (eigh/svd/qr/eig). Numerical orthogonality of "
+            "Krylov bases and PSD-ness of user data are not decided.", "4/C05"),
 }
 
 NOT_APPLICABLE = {
